@@ -675,4 +675,30 @@ theorem listExtend_preserves (E : Env) (st : St) (regs : List Reg) (c : Id) (xs 
   simp only [mutate, core.hc, hne, Bool.false_eq_true, if_false]
   exact listMut_preserves E st regs c items _ _ _ hinv fr
 
+theorem sum_slice_split (F : Id → Nat) (l : List Id) (i j : Nat) (hij : i ≤ j) :
+    (l.map F).sum = (((l.drop i).take (j - i)).map F).sum + ((l.take i ++ l.drop j).map F).sum := by
+  have h1 : l = l.take i ++ ((l.drop i).take (j - i) ++ l.drop j) := by
+    have : (l.drop i).drop (j - i) = l.drop j := by rw [List.drop_drop]; congr 1; omega
+    rw [← this, List.take_append_drop, List.take_append_drop]
+  conv => lhs; rw [h1]
+  simp only [List.map_append, List.sum_append]
+  omega
+
+/-- `l[i:j] = xs` (any lengths; the classic case: same length, same objects, other
+multiplicities — `[a, a, b]` ↦ `[a, b, b]`) -/
+theorem listSlice_preserves (E : Env) (st : St) (regs : List Reg) (c : Id) (i j : Nat) (xs : List Id) (items : List Id)
+    (hij : i ≤ j ∧ j ≤ items.length)
+    (hne : (((items.drop i).take (j - i)).isEmpty && xs.isEmpty) = false)
+    (hinv : HooksEqReach st.h st.H regs)
+    (core : ListCore E st regs c items (items.take i ++ xs ++ items.drop j) (.list i ((items.drop i).take (j - i)) xs)) :
+    HooksEqReach (mutate E st (.listSlice c i j xs)).st.h (mutate E st (.listSlice c i j xs)).st.H regs ∧
+    (mutate E st (.listSlice c i j xs)).err = none := by
+  have fr : ListFrag E st regs c items (items.take i ++ xs ++ items.drop j) (items.take i ++ items.drop j)
+      (.list i ((items.drop i).take (j - i)) xs) :=
+    { core with
+      hitems := by intro F; rw [sum_slice_split F items i j hij.1]; simp [CEvent.removed]
+      hitems' := by intro F; simp [CEvent.added, List.map_append, List.sum_append]; omega }
+  simp only [mutate, core.hc, hij, and_self, if_true, hne, Bool.false_eq_true, if_false]
+  exact listMut_preserves E st regs c items _ _ _ hinv fr
+
 end TraitsVerif.Model.Obs
